@@ -25,7 +25,7 @@ NCASES = {"quick": 8000, "thorough": 120000}
 NSHARDS = 16
 SHARD_TIMEOUT = {"quick": 600, "thorough": 3600}
 
-PAYLOADS = ["distinct", "equal", "nan", "few", "raising_eq", "falsy", "none"]
+PAYLOADS = ["distinct", "equal", "nan", "few", "raising_eq", "falsy", "none", "nodes"]
 OPS = ["append", "prepend", "extend", "pre_extend", "remove", "pop_back", "pop_front", "move_to_front",
        "move_to_back", "move_after", "rotate_fb", "rotate_bf", "extend_lazy", "pre_extend_lazy"]
 
@@ -62,6 +62,10 @@ def make_payload(kind, counter):
         return [None, 0, "", (), False, 0.0, [], None][counter % 8]
     if kind == "none":
         return None
+    if kind == "nodes":
+        # payloads that are nodes of another list, lists, dicts, the list class itself: a payload is opaque
+        from windpyutils.structures.lists import DoublyLinkedList, DoublyLinkedListNode
+        return [DoublyLinkedListNode(counter), [counter], {"n": counter}, DoublyLinkedList, DoublyLinkedListNode(None)][counter % 5]
     return RaisingEq(counter)
 
 
